@@ -357,14 +357,14 @@ def suiteOf : String → Option Suite
   | "ed" => some ⟨true⟩ | "g1" => some ⟨false⟩ | "g2" => some ⟨false⟩ | _ => none
 
 /-- `hs role=… suite=… tlsv=… op=… them=… ncerts=… der=… signedby=… time=… uris=… cn=… sig=…
-nonce=… id=… via=… live=…`: one handshake of a deviating peer with the honest node, in either role.  The
+nonce=… id=… via=… live=… decoy=…`: one handshake of a deviating peer with the honest node, in either role.  The
 answer is `hs=<ok|fail> disp=<label of the key attached to the dispatched message|->`. -/
 def step (s : State) (toks : List String) : State × String :=
   match toks with
   | "hs" :: rest =>
     let r : Option String := do
       let m ← kv rest
-      if m.length ≠ 16 then none
+      if m.length ≠ 17 then none
       let role ← get m "role"
       let suite ← (← get m "suite") |> suiteOf
       let tlsv ← get m "tlsv"
@@ -387,6 +387,10 @@ def step (s : State) (toks : List String) : State × String :=
       let live ← get m "live"
       if live ≠ "none" ∧ (live = "h" ∨ (keyOf live).isNone) then none
       if role = "dial" ∧ live ≠ "none" then none
+      -- `decoy=<name>`: one more certificate sent *before* the described one(s): the peer's own
+      -- TLS key, that name as common name, no URI, no proof
+      let decoyT ← get m "decoy"
+      let decoy ← (if decoyT = "none" then some none else (nameOf decoyT).map some)
       let (parses, count) ← (match der with
         | "ok" => some (true, 1) | "bad" => some (false, 0) | "two" => some (true, 2) | _ => none)
       let tls : TlsKey := 10 + op
@@ -400,7 +404,9 @@ def step (s : State) (toks : List String) : State × String :=
       let c : Cert := { parses := parses, count := count, tlsKey := tls, signedBy := signer,
                         validity := validity, uris := uris, cn := cn, ext := sg }
       if ncerts > 3 then none
-      let raw := List.replicate ncerts c
+      let raw := (match decoy with
+        | some n => [{ c with uris := [], cn := n, ext := none, signedBy := tls, validity := .ok, parses := true, count := 1 }]
+        | none => []) ++ List.replicate ncerts c
       let honestAnswers := (certFor .new 0 10 (if honestCanAnswer then .adv 1 else .badSize)).isSome
       match role with
       | "dial" =>
